@@ -3,7 +3,19 @@ package parallel
 import (
 	"context"
 	"errors"
+	"runtime"
 )
+
+// vTwoProcs: natively, run the harness with GOMAXPROCS = 2 (the upper end of the model's range), so
+// that "parallelism <= 0 means GOMAXPROCS" is observable on a machine with more CPUs. Returns the
+// function that restores the previous value. Symbolically a no-op.
+func vTwoProcs() func() {
+	if !vNative() {
+		return func() {}
+	}
+	prev := runtime.GOMAXPROCS(2)
+	return func() { runtime.GOMAXPROCS(prev) }
+}
 
 //verif:pkg ./parallel
 // VerifDo args: n, parallelism
@@ -45,9 +57,11 @@ func (g *vGauge) leave() { vAtomic(func() { g.running-- }) }
 // VerifDo: exactly once per index, never more than the effective parallelism at a time,
 // returns only after every call finished.
 func VerifDo(n int, par int) {
+	defer vTwoProcs()()
 	g := &vGauge{calls: make([]int, n)}
 	Do(par, n, func(i int) {
 		g.enter(i)
+		vWindow() // natively the call takes a while, so that calls in flight overlap
 		g.leave()
 	})
 	vAssert(g.running == 0, "do/barrier-all-calls-finished")
@@ -67,6 +81,7 @@ func VerifDo(n int, par int) {
 
 // VerifDoContext: the error contract.
 func VerifDoContext(n int, par int, failMask int, ctxMode int) {
+	defer vTwoProcs()()
 	g := &vGauge{calls: make([]int, n)}
 	errs := make([]error, n)
 	for i := range errs {
@@ -94,6 +109,7 @@ func VerifDoContext(n int, par int, failMask int, ctxMode int) {
 			}
 		})
 		g.enter(i)
+		vWindow()
 		g.leave()
 		if failMask&(1<<uint(i)) != 0 {
 			vAtomic(func() { failedCalled[i] = true })
@@ -154,6 +170,24 @@ func VerifDoContext(n int, par int, failMask int, ctxMode int) {
 	vQuiesce()
 	vAssert(g.total == before, "docontext/no-call-starts-after-return")
 	cancel()
+	if vNative() && anyFail && ctxMode == 0 {
+		// native replay only: the window between a failing call and the errgroup recording its
+		// error is a few nanoseconds; hammer it (many workers, many no-op calls, one failure)
+		runtime.GOMAXPROCS(runtime.NumCPU())
+		for trial := 0; trial < 300; trial++ {
+			E := errors.New("E")
+			got := DoContext(context.Background(), 8, 1<<16, func(ctx context.Context, i int) error {
+				if i == 1000 {
+					return E
+				}
+				return nil
+			})
+			if got != E {
+				vAssert(false, "docontext/error-is-one-a-call-returned-or-the-callers-context-error")
+				break
+			}
+		}
+	}
 	vCover("docontext")
 }
 
